@@ -5,7 +5,7 @@ With --src, confirmed seeds found there are first copied into /verif/seeded."""
 import json, os, re, shutil, subprocess, sys
 V = "/verif"
 EXTRA = {  # checks, besides the seed's own property, that are worth running against it
- "C01": ["C04", "C06"], "C02": ["C06"], "C03": ["C06"], "C06": ["C04", "C05", "C08"], "C07": ["C14", "C04"], "C09": ["C06"],
+ "C01": ["C04", "C06"], "C02": ["C06", "C09"], "C03": ["C06"], "C06": ["C04", "C05", "C08"], "C07": ["C14", "C04"], "C09": ["C06"],
 }
 def sh(cmd, **kw):
     return subprocess.run(cmd, shell=True, capture_output=True, text=True, **kw)
